@@ -25,6 +25,17 @@ COMPONENTS = {
     },
 }
 
+COMPONENTS["transparency"] = {
+    "coq_run_module": "Remoting.RemRun",
+    "cmd": "remoting",
+    "args": {"quick": ["-mode", "transparency"], "thorough": ["-mode", "transparency"]},
+    "timeout": {"quick": 240, "thorough": 1200},
+    "monitors_only": True,
+    "what": ("two real systems through the re-chunking proxy: an actor on A watches and kills (poison and non-poison) freshly spawned actors on B; "
+             "monitors: the target sees exactly one OnKill naming the remote killer with its reason and poison flag; two remote watchers and one local "
+             "watcher each receive exactly one OnKilled naming the target; a Tell after the kill no longer reaches the actor"),
+}
+
 _M5 = ("M5: TCP is a reliable FIFO byte stream that may split/coalesce arbitrarily and may be cut after any byte; conn.Write delivers all its bytes or a "
        "strict prefix after which nothing more arrives on that connection, and only the second case can return an error (Link.write)")
 
@@ -62,7 +73,28 @@ PROPERTIES = {
     },
 }
 
+PROPERTIES["C15"] = {
+    "components": ["transparency"],
+    "coq_files": ["Properties/C15_remote.v"],
+    "rule": ("remote Kill / Watch rounds between two real systems (12 quick / 120 thorough; poison and non-poison; pass, 1-byte, straddling, random chunking); "
+             "no model cases: implementation monitors only (the wire-level theorem is C11's, instantiated for envelopes)"),
+    "modelled_not_verified": [
+        "payload codecs of OnKill / OnKilled / Watch (including the (address, path) encoding of their ActorRef fields) are assumed here: C12's round-trip theorems",
+        "what the target system does with a delivered system envelope (kill the subtree, notify watchers) is the actor runtime's business (C06), observed here by monitors only",
+        _M5,
+    ],
+}
+
 META = {
+    "C15": {
+        "text": ("Remoting part of location transparency: system messages (Kill, Watch, OnKilled) travel in the same envelopes and frames as user messages; "
+                 "kernel-checked: any sequence of envelopes (system flag, message name, payload, four reference strings) is delivered exactly once, in order, "
+                 "every field intact, for every chunking, and the receiver rebuilds exactly the written sender/receiver references. Tied to the code by remote "
+                 "Kill / Watch rounds on two real systems."),
+        "design_ref": "DESIGN.md section 4 C15",
+        "note": "Trusted as for C11. The message-level codecs and the actor runtime's reaction are assumed (C12, C06); this part has monitors, no model cases.",
+        "technique": "Coq proof (instance of the C11 framing theorem for concrete envelopes) + implementation monitors on two real systems",
+    },
     "C11": {
         "text": ("Kernel-checked theorems about a Gallina model of the remoting wire: the receiver as coded (one buffered reader per connection refilled by arbitrary "
                  "reads, 4-byte big-endian length, zero-length close, oversize discard, decode-failure-continues, handshake read with ReadFull) computes a "
